@@ -146,7 +146,8 @@ impl Ctx {
         // waveform parameter keys first: the model's key order is the interning order
         ppmodel::preintern(std::slice::from_ref(&i1), &mut it);
         let t1 = quilgen::tokens_to_coq(text1, &mut it);
-        let ast = ppmodel::instr(&i1, &mut it);
+        let is_def = ppmodel::is_definition(&i1);
+        let ast = if is_def { ppmodel::item(&i1, &mut it) } else { ppmodel::instr(&i1, &mut it) };
         let (print_ok, eq, stable, t2) = match i1.to_quil() {
             Err(_) => (false, false, false, None),
             Ok(text2) => {
@@ -171,7 +172,8 @@ impl Ctx {
             (Some(t1), Some(ast), Some(t2)) if print_ok => {
                 self.run.count(&format!("{class}:fragment:{}", if ok { "roundtrip" } else { "FAIL" }));
                 self.run.count(&format!("modelled:{}", kind_name(&i1)));
-                let coq = format!("CFrag {t1} ({ast}) {t2} {} {}", b(eq), b(stable));
+                let ctor = if is_def { "CItem" } else { "CFrag" };
+                let coq = format!("{ctor} {t1} ({ast}) {t2} {} {}", b(eq), b(stable));
                 self.run.case(coq, &desc, true, known);
             }
             _ => {
